@@ -41,10 +41,10 @@ type Compiler struct {
 	varScopes       []map[string]string
 	// Number of try-blocks of the current function which enclose the code that is currently being compiled.
 	// A `break`, `continue` or `return` leaving such blocks must unregister their exception handlers.
-	tryDepth  uint
-	currScope *map[string]string
-	currModule      string
-	lambdaCount     uint
+	tryDepth    uint
+	currScope   *map[string]string
+	currModule  string
+	lambdaCount uint
 	// Program source: required for invocations of the evaluator.
 	analyzedSource   map[string]ast.AnalyzedProgram
 	entryPointModule string
@@ -164,6 +164,12 @@ func (self *Compiler) compileProgram(
 				}
 				self.insert(newTwoStringInstruction(Opcode_Import, item.FromModule.Ident(), importItem.Ident.Ident()), item.Range)
 			}
+		}
+
+		// The init function of an imported module is called by the init function of the entry module.
+		// It must not be empty (a module without globals would otherwise yield a routine without instructions).
+		if moduleName != entryPointModule {
+			self.insert(newPrimitiveInstruction(Opcode_Return), errors.Span{Filename: moduleName})
 		}
 
 		// Mangle all functions so that later stages know about them.
